@@ -34,9 +34,11 @@ def generate(rng, special_rate=0.25, n_roots=None):
     active_edges = {n: [] for n in names}
     texts = {}
     dead = set()
+    guards = {}
     for i, n in enumerate(names):
         lines = []
         guard = rng.choice(["guard", "once", "none"])
+        guards[n] = guard
         if guard == "guard":
             lines += ["#ifndef G_%d" % i, "#define G_%d" % i]
         elif guard == "once":
@@ -95,7 +97,9 @@ def generate(rng, special_rate=0.25, n_roots=None):
         texts[rn] = '#include "%s"\n' % names[0] if "/" not in names[0] and '"' not in names[0] else "extern int lonely_root;\n"
         active_edges[rn] = [names[0]] if texts[rn].startswith("#include") else []
         names.insert(0, rn)
-    g.roots = [names[0]] + rng.sample(names[1:], min(k - 1, len(names) - 1))
+    # (`#pragma once` is ignored in a main file: a further root that an earlier root already includes must not rely on it)
+    extra_pool = [x for x in names[1:] if guards.get(x) != "once"]
+    g.roots = [names[0]] + rng.sample(extra_pool, min(k - 1, len(extra_pool)))
     # reachability over active edges
     seen = set()
     stack = list(g.roots)
